@@ -255,3 +255,48 @@ def quiet_logging():
         lg.logfile = os.devnull
     except Exception:
         pass
+
+
+# ------------------------------------------------------------------ process pool
+
+def nprocs():
+    try:
+        return max(1, min(int(os.environ.get("VERIF_PROCS", "14")), (os.cpu_count() or 2)))
+    except ValueError:
+        return 8
+
+
+def _pmap_call(args):
+    func, item = args
+    from . import solve
+    before = dict((k, v) for k, v in solve.STATS.items() if isinstance(v, (int, float)))
+    try:
+        r = func(item)
+        err = None
+    except BaseException as e:  # noqa
+        import traceback
+        r, err = None, "%r\n%s" % (e, traceback.format_exc()[-1500:])
+    delta = {k: solve.STATS[k] - before[k] for k in before}
+    return r, err, delta
+
+
+def pmap(func, items, procs=None, chunksize=1):
+    """fork-based parallel map; merges solver statistics of the workers into this process.
+    Must be called before this process has used z3 (the solver thread is created lazily)."""
+    import multiprocessing as mp
+    from . import solve
+    procs = procs or nprocs()
+    items = list(items)
+    if procs <= 1 or len(items) <= 1:
+        res = [_pmap_call((func, it)) for it in items]
+    else:
+        ctx = mp.get_context("fork")
+        with ctx.Pool(procs) as pool:
+            res = pool.map(_pmap_call, [(func, it) for it in items], chunksize=chunksize)
+    out = []
+    for r, err, delta in res:
+        if procs > 1 and len(items) > 1:
+            for k, v in delta.items():
+                solve.STATS[k] += v
+        out.append((r, err))
+    return out
